@@ -14,18 +14,84 @@ pub fn check(tier: Tier) -> Check {
     )];
     let mut parts = parts;
     parts.push(Part::new("C09/qos2", json!({"depth": tier.pick(6, 7), "flavour": 1}), 0, tier.pick(40, 300)));
+    // identifiers that only differ in their high byte / collide when truncated
+    parts.push(Part::new("C09/qos2", json!({"depth": tier.pick(6, 7), "ids": [1, 257]}), 0, tier.pick(40, 300)));
+    parts.push(Part::new("C09/qos2", json!({"depth": tier.pick(6, 7), "ids": [255, 65535]}), 0, tier.pick(40, 300)));
+    parts.push(Part::new("C09/wide", json!({"n": tier.pick(4096, 65535)}), 0, 300));
     Check {
         also_rel: false,
         property: "C09",
         level: "model_checking",
-        rule: "all sequences over {PUBLISH(QoS 2, id in {1,2}, DUP 0/1), PUBREL(id in {1,2}), an unrelated QoS 1 PUBLISH} against one subscribed stream; the model keeps the set of identifiers awaiting PUBREL; non-trivial = a re-delivery had to be suppressed".into(),
+        rule: "all sequences over {PUBLISH(QoS 2, id in {1,2} / {1,257} / {255,65535}, DUP 0/1), PUBREL(id in {1,2}), an unrelated QoS 1 PUBLISH} against one subscribed stream; the model keeps the set of identifiers awaiting PUBREL; plus deterministic runs over every identifier 1..=n at once (deliver all, re-deliver all, release all, twice, three orders); non-trivial = a re-delivery had to be suppressed".into(),
         assumptions: vec![],
         parts,
     }
 }
 
+/// Every identifier 1..=n delivered once (all unreleased at the same time), re-delivered, released and
+/// used again: the bookkeeping must be keyed by the full identifier value.
+fn wide(name: String, params: Value) -> Scenario {
+    Box::new(move |chz, ex| {
+        let n = params["n"].as_u64().unwrap_or(4096) as u16;
+        let stride = [1u32, 33, 257][chz.choose(3)];
+        let mut sys = Sys::new("C09", &name, chz);
+        sys.params = params.clone();
+        sys.bring_up(vec![]);
+        sys.apply(Ev::Start(OpSpec::Subscribe(SubscribeSpec::simple("s/a"))));
+        if sys.dead {
+            return sys.report(ex, &[]);
+        }
+        let ack = sys.ack_for(0, 0, "").unwrap();
+        sys.apply(Ev::Deliver(ack));
+        sys.apply(Ev::TakeStream(0));
+        let sid = sys.m.subs[0].sub_id.unwrap();
+        // a permutation of 1..=n
+        let order: Vec<u16> = {
+            let mut v: Vec<u16> = vec![];
+            for r in 0..stride {
+                let mut k = r;
+                while k < n as u32 {
+                    v.push(k as u16 + 1);
+                    k += stride;
+                }
+            }
+            v
+        };
+        for round in 0..2 {
+            for &pid in &order {
+                sys.apply(Ev::Deliver(inbound(2, false, pid, &[sid], &format!("n{}-{}", round, pid))));
+                if sys.dead {
+                    return sys.report(ex, &[]);
+                }
+            }
+            for &pid in order.iter().rev() {
+                sys.apply(Ev::Deliver(inbound(2, pid % 2 == 0, pid, &[sid], "again")));
+                if sys.dead {
+                    return sys.report(ex, &[]);
+                }
+            }
+            for &pid in &order {
+                sys.apply(Ev::Deliver(pubrel_in(pid)));
+                if sys.dead {
+                    return sys.report(ex, &[]);
+                }
+            }
+        }
+        sys.finish();
+        sys.events = vec![format!("identifiers 1..={} (stride {}): deliver all, re-deliver all, release all; twice", n, stride)];
+        sys.report(ex, &["qos2-redelivery-suppressed"]);
+    })
+}
+
 pub fn scenario(name: &str, params: &Value) -> Scenario {
+    if name == "C09/wide" {
+        return wide(name.to_string(), params.clone());
+    }
     let depth = params["depth"].as_u64().unwrap_or(5) as usize;
+    let ids: Vec<u16> = params["ids"]
+        .as_array()
+        .map(|a| a.iter().map(|x| x.as_u64().unwrap() as u16).collect())
+        .unwrap_or_else(|| vec![1, 2]);
     let params = params.clone();
     let name = name.to_string();
     Box::new(move |chz, ex| {
@@ -46,13 +112,13 @@ pub fn scenario(name: &str, params: &Value) -> Scenario {
         let evs = |s: &Sys| {
             let mut e = vec![];
             let n = s.transitions;
-            for pid in [1u16, 2] {
+            for pid in ids.iter().copied() {
                 for dup in [false, true] {
                     e.push(Ev::Deliver(inbound(2, dup, pid, &[sid], &format!("m{}", n))));
                 }
                 e.push(Ev::Deliver(pubrel_in(pid)));
             }
-            e.push(Ev::Deliver(inbound(1, false, 1, &[sid], &format!("u{}", n))));
+            e.push(Ev::Deliver(inbound(1, false, ids[0], &[sid], &format!("u{}", n))));
             e
         };
         drive(&mut sys, chz, depth, &|_| vec![], &evs);
